@@ -457,3 +457,180 @@ Theorem refused_history_example :
                kids_of s0 1 = [2; 3] /\ kids_of s 1 = [3] /\ parent_of s 3 = Some 1 /\ parent_of s 2 = None.
 Proof. exact ex_history_r_runs. Qed.
 Print Assumptions refused_history_example.
+
+(* ===== wave 9: the store graph of a well-formed world IS the located-node graph of a rose tree =====
+   (Proofs/C15W9Sim.v, Proofs/C15W9Store.v).  wf_store s f seed is an executable check: the seed has no
+   parent, every member of a child list reachable from the seed has that node as parent pointer, the
+   unfolding from the seed ends within f levels (acyclic), no node id occurs twice in it (no node in two
+   child lists).  store_tree s f seed is the rose tree read off the store; loc r x: x is a located node
+   of the tree rooted at r (the root, or a child of a located node).  lift ff = the filter ff : id -> bool
+   read as a filter on located nodes (fun n => ff (l_id n)); store_age n = age_of (l_id n). *)
+From DV Require Import Proofs.C15W9Sim Proofs.C15W9Store.
+
+(* (a) l_id is an isomorphism-on-the-image from the located-node graph LG of store_tree onto the object
+   graph WG s the traversal machines run on: child lists, parent pointers, ages, edges, `is`; and the located
+   nodes are closed under children and parents *)
+Theorem store_graph_is_located_node_graph : forall (s : store) (f : nat) (seed : Z),
+  wf_store s f seed = true ->
+  let r := (store_tree s f seed, []) in
+  l_id r = seed /\
+  forall x, loc r x ->
+    attr_child_nodes (WG s) (l_id x) = map l_id (attr_child_nodes (LG store_age) x) /\
+    attr_parent_node (WG s) (l_id x) = option_map l_id (attr_parent_node (LG store_age) x) /\
+    attr_age (WG s) (l_id x) = attr_age (LG store_age) x /\
+    attr_edge (WG s) (l_id x) = l_id (attr_edge (LG store_age) x) /\
+    attr_head_node (WG s) (l_id x) = l_id (attr_head_node (LG store_age) x) /\
+    Forall (loc r) (attr_child_nodes (LG store_age) x) /\
+    (forall p, attr_parent_node (LG store_age) x = Some p -> loc r p) /\
+    (forall y, loc r y -> obj_is (WG s) (l_id x) (l_id y) = obj_is (LG store_age) x y).
+Proof. exact store_graph_is_located_graph. Qed.
+Print Assumptions store_graph_is_located_node_graph.
+
+(* the generated machines commute with it: for EVERY fuel (running out of fuel included), every located
+   start node, every filter / callback set, the run on the store is the l_id image of the run on the tree *)
+Theorem machines_on_store_are_machines_on_tree : forall (s : store) (f : nat) (seed : Z),
+  wf_store s f seed = true ->
+  forall x, loc (store_tree s f seed, []) x ->
+  forall (ff : option (Z -> bool)) (b1 b2 : bool) (fuel : nat),
+    Node_preorder_iter (WG s) fuel ff (l_id x) = gmap l_id (Node_preorder_iter (LG store_age) fuel (lift ff) x) /\
+    Node_postorder_iter (WG s) fuel ff (l_id x) = gmap l_id (Node_postorder_iter (LG store_age) fuel (lift ff) x) /\
+    Node_levelorder_iter (WG s) fuel ff (l_id x) = gmap l_id (Node_levelorder_iter (LG store_age) fuel (lift ff) x) /\
+    Node_inorder_iter (WG s) fuel ff (l_id x) = gmap l_id (Node_inorder_iter (LG store_age) fuel (lift ff) x) /\
+    Node_leaf_iter (WG s) fuel ff (l_id x) = gmap l_id (Node_leaf_iter (LG store_age) fuel (lift ff) x) /\
+    Node_preorder_internal_node_iter (WG s) fuel ff b1 (l_id x)
+      = gmap l_id (Node_preorder_internal_node_iter (LG store_age) fuel (lift ff) b1 x) /\
+    Node_postorder_internal_node_iter (WG s) fuel ff b1 (l_id x)
+      = gmap l_id (Node_postorder_internal_node_iter (LG store_age) fuel (lift ff) b1 x) /\
+    Node_ancestor_iter (WG s) fuel ff b1 (l_id x) = gmap l_id (Node_ancestor_iter (LG store_age) fuel (lift ff) b1 x) /\
+    Node_child_node_iter (WG s) fuel ff (l_id x) = gmap l_id (Node_child_node_iter (LG store_age) fuel (lift ff) x) /\
+    Node_child_edge_iter (WG s) fuel ff (l_id x) = gmap l_id (Node_child_edge_iter (LG store_age) fuel (lift ff) x) /\
+    Node_ageorder_iter (WG s) fuel ff b1 b2 (l_id x)
+      = gmap l_id (Node_ageorder_iter (LG store_age) fuel (lift ff) b1 b2 x) /\
+    Node_leaf_nodes (WG s) fuel (l_id x) = gmap l_id (Node_leaf_nodes (LG store_age) fuel x) /\
+    Tree_nodes (WG s) fuel ff (l_id x) = gmap l_id (Tree_nodes (LG store_age) fuel (lift ff) x) /\
+    Tree_leaf_nodes (WG s) fuel (l_id x) = gmap l_id (Tree_leaf_nodes (LG store_age) fuel x) /\
+    Tree_internal_nodes (WG s) fuel b1 (l_id x) = gmap l_id (Tree_internal_nodes (LG store_age) fuel b1 x) /\
+    Tree_dunder_len (WG s) fuel (l_id x) = Tree_dunder_len (LG store_age) fuel x /\
+    (forall (ev : Type) (bf af lf : option (Z -> ev)),
+       Node_apply (WG s) fuel bf af lf (l_id x)
+       = Node_apply (LG store_age) fuel (lift_cb l_id bf) (lift_cb l_id af) (lift_cb l_id lf) x).
+Proof. exact C15W9Store.machines_on_store_are_machines_on_tree. Qed.
+Print Assumptions machines_on_store_are_machines_on_tree.
+
+(* (b) hence every "machine = structural order" theorem above holds for the machines run on a well-formed
+   store: each yields the ids of its structural order on the tree read off the store.  (The Tree.* wrappers,
+   aliases and __iter__ are tree_wrappers_delegate, which holds in every object graph, WG s included.) *)
+Theorem traversals_on_wellformed_store : forall (s : store) (f : nat) (seed : Z),
+  wf_store s f seed = true ->
+  forall x, loc (store_tree s f seed, []) x ->
+  forall (ff : option (Z -> bool)) (b1 b2 : bool) (fuel : nat),
+    (2 * size (here x) + l_depth x + 2 <= fuel)%nat ->
+    Node_preorder_iter (WG s) fuel ff (l_id x) = GDone (map l_id (filter (pyf (lift ff)) (lpre x))) /\
+    Node_postorder_iter (WG s) fuel ff (l_id x) = GDone (map l_id (filter (pyf (lift ff)) (lpost x))) /\
+    Node_levelorder_iter (WG s) fuel ff (l_id x) = GDone (map l_id (filter (pyf (lift ff)) (llevel x))) /\
+    Node_inorder_iter (WG s) fuel ff (l_id x) = gmap l_id (linorder (pyf (lift ff)) x) /\
+    Node_leaf_iter (WG s) fuel ff (l_id x) = GDone (map l_id (filter (pyf (lift ff)) (lleaves x))) /\
+    Node_preorder_internal_node_iter (WG s) fuel ff b1 (l_id x)
+      = GDone (map l_id (filter (fun y => (if b1 then l_has_parent y else true) && l_is_internal y && pyf (lift ff) y)
+                                (lpre x))) /\
+    Node_postorder_internal_node_iter (WG s) fuel ff b1 (l_id x)
+      = GDone (map l_id (filter (fun y => (if b1 then l_has_parent y else true) && l_is_internal y && pyf (lift ff) y)
+                                (lpost x))) /\
+    Node_ancestor_iter (WG s) fuel ff b1 (l_id x)
+      = GDone (map l_id (filter (pyf (lift ff)) ((if b1 then [x] else []) ++ lancestors x))) /\
+    Node_child_node_iter (WG s) fuel ff (l_id x) = GDone (map l_id (filter (pyf (lift ff)) (l_kids x))) /\
+    Node_child_edge_iter (WG s) fuel ff (l_id x) = GDone (map l_id (filter (pyf (lift ff)) (l_kids x))) /\
+    Node_ageorder_iter (WG s) fuel ff b1 b2 (l_id x)
+      = GDone (map l_id (filter (fun y => (b1 || l_is_internal y) && pyf (lift ff) y)
+                                (py_sort_by store_age b2 (lpre x)))) /\
+    Node_leaf_nodes (WG s) fuel (l_id x) = GDone (map l_id (lleaves x)) /\
+    Tree_nodes (WG s) fuel ff (l_id x) = GDone (map l_id (filter (pyf (lift ff)) (lpre x))) /\
+    Tree_leaf_nodes (WG s) fuel (l_id x) = GDone (map l_id (lleaves x)) /\
+    Tree_internal_nodes (WG s) fuel b1 (l_id x)
+      = GDone (map l_id (filter (fun y => (if b1 then l_has_parent y else true) && l_is_internal y && true) (lpre x))) /\
+    Tree_dunder_len (WG s) fuel (l_id x) = Ok (Z.of_nat (length (leaves (here x)))) /\
+    (forall (ev : Type) (bf af lf : option (Z -> ev)),
+       Node_apply (WG s) fuel bf af lf (l_id x)
+       = GDone (flat_map (cb_emit (lift_cb l_id bf) (lift_cb l_id af) (lift_cb l_id lf)) (lbrackets x))).
+Proof. exact C15W9Store.traversals_on_wellformed_store. Qed.
+Print Assumptions traversals_on_wellformed_store.
+
+(* the seed is a located node (the root) and the fuel the correspondence check gives the machines,
+   store_fuel s = 2 * #nodes + 4, satisfies the bound there: a well-formed tree has at most #nodes + 1 nodes *)
+Theorem seed_is_located_with_probe_fuel : forall (s : store) (f : nat) (seed : Z),
+  wf_store s f seed = true ->
+  exists x, loc (store_tree s f seed, []) x /\ l_id x = seed /\
+            (2 * size (here x) + l_depth x + 2 <= store_fuel s)%nat.
+Proof. exact C15W9Store.seed_is_located_with_probe_fuel. Qed.
+Print Assumptions seed_is_located_with_probe_fuel.
+
+(* edge iterators on a store (an edge is named by its head node): each IS its node counterpart, on every store *)
+Theorem edge_iterators_on_store :
+  forall (s : store) (fuel : nat) (fe : option (Z -> bool)) (excl : bool) (seed : Z),
+  Tree_preorder_edge_iter (WG s) fuel fe seed = Tree_preorder_node_iter (WG s) fuel fe seed /\
+  Tree_postorder_edge_iter (WG s) fuel fe seed = Tree_postorder_node_iter (WG s) fuel fe seed /\
+  Tree_preorder_internal_edge_iter (WG s) fuel fe excl seed = Tree_preorder_internal_node_iter (WG s) fuel fe excl seed /\
+  Tree_postorder_internal_edge_iter (WG s) fuel fe excl seed = Tree_postorder_internal_node_iter (WG s) fuel fe excl seed /\
+  Tree_levelorder_edge_iter (WG s) fuel fe seed = Tree_levelorder_node_iter (WG s) fuel fe seed /\
+  Tree_level_order_edge_iter (WG s) fuel fe seed = Tree_level_order_node_iter (WG s) fuel fe seed /\
+  Tree_inorder_edge_iter (WG s) fuel fe seed = Tree_inorder_node_iter (WG s) fuel fe seed /\
+  Tree_leaf_edge_iter (WG s) fuel fe seed = Tree_leaf_node_iter (WG s) fuel fe seed /\
+  Tree_edges (WG s) fuel fe seed = Tree_nodes (WG s) fuel fe seed /\
+  Tree_leaf_edges (WG s) fuel seed = Tree_leaf_nodes (WG s) fuel seed /\
+  Tree_internal_edges (WG s) fuel excl seed = Tree_internal_nodes (WG s) fuel excl seed.
+Proof. exact C15W9Store.edge_iterators_on_store. Qed.
+Print Assumptions edge_iterators_on_store.
+
+(* satisfiable: the world built from C15Final.ex_tree, and the world after a history (the seed's child list copied,
+   reversed and assigned back; a new child under node 4), are well formed and read back as the expected trees *)
+Theorem wellformed_store_example :
+  wf_store ex_world 11 0%Z = true /\ ids (store_tree ex_world 11 0%Z) = ids C15Final.ex_tree /\
+  wf_store ex_world2 12 0%Z = true /\ ids (store_tree ex_world2 12 0%Z) = [0; 9; 8; 4; 5; 6; 7; 20; 1; 2; 3]%Z.
+Proof. exact wf_store_satisfiable. Qed.
+Print Assumptions wellformed_store_example.
+
+(* the hypothesis bites and is needed: a store with node 2 in two child lists (p.add_child(n) while n is still
+   a child of another node) is rejected by wf_store, and there pre-order is not a tree order (2 is yielded twice) *)
+Theorem shared_child_store_is_not_wellformed :
+  wf_store ex_shared 10 0%Z = false /\
+  Node_preorder_iter (WG ex_shared) 20 None 0%Z = GDone [0; 1; 2; 2]%Z.
+Proof. exact shared_child_is_not_wellformed. Qed.
+Print Assumptions shared_child_store_is_not_wellformed.
+
+(* what the correspondence check evaluates on the store (probe_run: the generated machines on WG s with the
+   check's own fuel store_fuel s, the filter given as a list of ids) at the seed of a well-formed store is the
+   structural order of the tree read off the store - node and edge iterators, list methods, len.  So on such a
+   store `probe_ok` compares the library's observed output with a tree order, by proof. *)
+Theorem probes_at_seed_are_tree_orders : forall (s : store) (f : nat) (seed : Z),
+  wf_store s f seed = true ->
+  forall (st : Z) (filt : option (list Z)) (out : list Z) (oe : option err),
+  let r := (store_tree s f seed, []) in
+  let keep := pyf (lift (probe_filter filt)) in
+  probe_run s seed (mkProbe st KT_preorder_node_iter filt out oe) = Some (map l_id (filter keep (lpre r)), None) /\
+  probe_run s seed (mkProbe st KT_postorder_node_iter filt out oe) = Some (map l_id (filter keep (lpost r)), None) /\
+  probe_run s seed (mkProbe st KT_levelorder_node_iter filt out oe) = Some (map l_id (filter keep (llevel r)), None) /\
+  probe_run s seed (mkProbe st KT_leaf_node_iter filt out oe) = Some (map l_id (filter keep (lleaves r)), None) /\
+  probe_run s seed (mkProbe st KT_nodes filt out oe) = Some (map l_id (filter keep (lpre r)), None) /\
+  probe_run s seed (mkProbe st KT_preorder_edge_iter filt out oe) = Some (map l_id (filter keep (lpre r)), None) /\
+  probe_run s seed (mkProbe st KT_postorder_edge_iter filt out oe) = Some (map l_id (filter keep (lpost r)), None) /\
+  probe_run s seed (mkProbe st KT_len filt out oe) = Some ([Z.of_nat (length (leaves (here r)))], None).
+Proof. exact C15W9Store.probes_at_seed_are_tree_orders. Qed.
+Print Assumptions probes_at_seed_are_tree_orders.
+
+(* executable, along a history: world_wf s = every live tree of s passes wf_store (fuel #nodes + 1); history_wf
+   checks it on the store after every step (a refused step leaves the store).  The two example histories above
+   (all public routes incl. Tree(seed_node = an attached node), the seed setter, a kept private list; refused
+   calls of every class and a real remove_child) stay well formed throughout, so the theorems of this block
+   apply to every tree of every intermediate store. *)
+Theorem world_wf_gives_wellformed_seeds : forall (s : store) (seed : Z),
+  world_wf s = true -> In seed (s_trees s) -> wf_store s (S (length (s_nodes s))) seed = true.
+Proof. exact world_wf_probes. Qed.
+Print Assumptions world_wf_gives_wellformed_seeds.
+
+Theorem example_histories_stay_wellformed :
+  match build_world [C15WorldProofs.ex_tree] empty_store with
+  | Ok (_, s0) => history_wf s0 C15WorldProofs.ex_steps && history_wf s0 C15Refused.ex_steps_r
+  | _ => false
+  end = true.
+Proof. exact C15W9Store.example_histories_stay_wellformed. Qed.
+Print Assumptions example_histories_stay_wellformed.
